@@ -112,6 +112,7 @@ class ThrottleExecutor(CanCustomizeBind, Executor):
         self._delegate = delegate
         self._to_submit = deque()
         self._lock = Lock()
+        self._submit_lock = Lock()
         self._event = get_event()
         # Used to wake callers blocked in submit().
         # This must be distinct from self._event: that one is cleared by the
@@ -136,19 +137,23 @@ class ThrottleExecutor(CanCustomizeBind, Executor):
         self._thread.start()
 
     def submit(self, fn, *args, **kwargs):  # pylint: disable=arguments-differ
-        with self._shutdown.ensure_alive():
+        # Callers which have to block are serialized by a lock of their own
+        # rather than by the shutdown lock, so that shutdown() - which also
+        # releases them - doesn't get stuck behind a blocked submit().
+        with self._submit_lock:
             self._block_until_ready(self._eval_throttle())
 
-            out = ThrottleFuture(self)
-            track_future(out, type="throttle", executor=self._name)
+            with self._shutdown.ensure_alive():
+                out = ThrottleFuture(self)
+                track_future(out, type="throttle", executor=self._name)
 
-            job = ThrottleJob(out, fn, args, kwargs)
-            with self._lock:
-                self._to_submit.append(job)
-                metrics.THROTTLE_QUEUE.labels(executor=self._name).inc()
-                self._log.debug("Enqueued: %s", job)
-            self._event.set()
-            return out
+                job = ThrottleJob(out, fn, args, kwargs)
+                with self._lock:
+                    self._to_submit.append(job)
+                    metrics.THROTTLE_QUEUE.labels(executor=self._name).inc()
+                    self._log.debug("Enqueued: %s", job)
+                self._event.set()
+                return out
 
     def shutdown(self, wait=True, **_kwargs):
         if self._shutdown():
